@@ -213,6 +213,15 @@ def enumerate_faults(backend, S, opname, op, viol, cid, stats):
                             viol.append({"case": cid, "clause": "no-notification-before-commit", "sig": sig,
                                          "detail": "event pushed to a subscriber although its transaction failed at %d/%d" % (k, n)})
                     follow_up(w, viol, cid, sig, "engine error at %d/%d of %s" % (k, n, opname))
+                    # the client tries the same operation again (the engine works again): it is applied now, as if nothing had happened
+                    if store.sdigest(after) == dS:
+                        operate(w, op)
+                        retried = dict((kk, vv) for kk, vv in store.decode_store(backend, w.dump()).items() if kk != FOLLOW["id"])
+                        wanted = store.decode_store(backend, S2)
+                        if set(retried) != set(wanted):
+                            viol.append({"case": cid, "clause": "later-events-still-applied", "sig": sig + "|retry",
+                                         "detail": "after an engine error at %d/%d of %s the same operation sent again is not applied: stored %d events, expected %d (missing %r, extra %r)" % (
+                                             k, n, opname, len(retried), len(wanted), sorted(x[:8] for x in set(wanted) - set(retried)), sorted(x[:8] for x in set(retried) - set(wanted)))})
                 else:
                     if not crashed:
                         if k <= n:
